@@ -1710,6 +1710,7 @@ func main() {
 		"no two addresses in play collide under SipHash-2-4(0,0) and no two live transactions share their first 8 txid bytes (hypotheses hinj / Admissible of theorem balances_eq_projection; 64-bit collisions are not generated)",
 		"the index's disk cache (wallet/disk.go): encoding modelled (Model.BalancesDisk) and compared with the files SaveBalances writes; folder naming and LAST_SAVED_FNAME logic are exercised on the real code only",
 		"the scan order of Unspent.HashMap during LoadBalancesFromUtxo is observed through FetchingBalanceTick and the address of utxo's static record; P2PK scripts (compressed key forms 2..5) are not generated here (C10 covers them)",
+		"the node's sync state is an input of every block connection: each submitted block carries a bl.LastKnownHeight chosen by the harness (0, own height, a few / 143..145 / up to UnwindBufLen ahead, below its own height; stretches of blocks more than UnwindBufLen behind one best known header - opSync, scenario sync:); the client's own computation of that field (network.LastCommitedHeader) is not run; Chain.ParseTillBlock more than UnwindBufLen below its target with the index on (a branch > 2560 blocks longer than the fork depth) is not reached; blocks connected without undo data are never disconnected (the real node cannot either)",
 		"UTXO change steps fed to the model are derived from snapshots of UnspentDB.HashMap taken at the vhook points after every block connection / disconnection",
 	}
 	if r.Replay != "" {
@@ -1834,6 +1835,6 @@ func main() {
 	r.Extra["oracle_requests"] = o.N
 	r.Extra["time_in_oracle_s"] = tOracle.Seconds()
 	r.Extra["time_in_chain_close_s"] = tClose.Seconds()
-	r.Finish("one evaluation = the real index after one block connection / disconnection / on-off switch of a generated history (corpus: boundaries of the quantifier per address type, minimum and useMapCnt; random: maturity phase + extend/reorg/undo/toggle mix); distinct = (scenario, seed, step)",
+	r.Finish("one evaluation = the real index after one block connection / disconnection / on-off switch of a generated history (corpus: boundaries of the quantifier per address type, minimum and useMapCnt; random: maturity phase + extend/reorg/undo/toggle/restart/fall-behind mix; every block connected in a drawn sync state); distinct = (scenario, seed, step)",
 		"For every address in play the real wallet.GetAllUnspent and record total are compared with a direct Go projection of UnspentDB (property predicate), and the Lean model (fed the UTXO change steps) is compared with the real index, with the real GetAllUnspent, and its Spec projection with the Go projection. Theorems in Props/C17.lean state the same equality for all histories of the model.")
 }
